@@ -175,7 +175,9 @@ let handle (toks : string list) : string =
       let x = decompose n' a and y = decompose_iter n' a in
       if x = y then vecs_str x else "ERR block-recursive and iterative butterfly differ"
   | ["decompdiag"; n; m] -> let v = Array.of_list (List.map gi_of (String.split_on_char '|' m)) in
-      vecs_str (decompose_diag (nat_of_int (int_of_string n)) (fun r -> v.(bits_int r)))
+      let n' = nat_of_int (int_of_string n) in let d = (fun r -> v.(bits_int r)) in
+      let x = decompose_diag n' d and y = decompose_diag_iter n' d in
+      if x = y then vecs_str y else "ERR block-recursive and iterative diagonal butterfly differ"
   | ["pindex"; p] -> let p = pstr_of_string p in
       Printf.sprintf "%d %s" (int_of_nat (index p)) (match dindex p with None -> "-1" | Some k -> string_of_int (int_of_nat k))
   | ["pweights"; n; pos] -> String.concat " " (List.map (fun k -> string_of_int (int_of_nat k)) (pauli_weights (nat_of_int (int_of_string n)) (nat_of_int (int_of_string pos))))
